@@ -1071,6 +1071,13 @@ def nonfinite(ctx):
         hit = None
         for c in ast.walk(f.node):
             if isinstance(c, ast.Call) and call_name(c) in bad_calls:
+                # a test of a prescription parameter (np.isinf(self.radius))
+                # is not on the flow from the radicand
+                if c.args and all(
+                        isinstance(a_, ast.Attribute) and
+                        isinstance(a_.value, ast.Name) and
+                        a_.value.id == 'self' for a_ in c.args):
+                    continue
                 # abs is fine when comparing |z1| <= |z2| (no masking of nan)
                 if call_name(c) == 'abs' and isinstance(
                         getattr(c, 'parent', None), ast.Compare):
@@ -1382,5 +1389,85 @@ def newton_unconverged(ctx):
     return res
 
 
-RULES = [newton_unconverged, c01_media_chain, no_stale, records, scatter_unit, snell_law, reflect_law, align_normal, on_surface, normal_gradient,
+def const_str(n):
+    return n.value if isinstance(n, ast.Constant) and \
+        isinstance(n.value, str) else None
+
+
+def flat_base(ctx):
+    """'each valid ray's recorded intersection point lies on that surface's
+    prescribed shape' for even asphere, polynomial and Chebyshev surfaces:
+    their documented default base radius is infinite, so the start point of
+    the iteration, the sag and the normal must be finite numbers for
+    radius = inf.  Decided in the domain {FIN, INF, NAN} (sa/infdom.py)."""
+    from ..infdom import InfEv, FIN, INF
+    P = ctx.P
+    res = Result('FLAT-BASE', 'start point, sag and normal of the iterated '
+                 'surfaces are finite for an infinite base radius (the '
+                 'factory default)')
+    fac = [f for f in P.all_funcs()
+           if f.qual.startswith('SurfaceFactory._configure_') and
+           'geometry' in f.qual]
+    n_def = 0
+    for f in fac:
+        for c in ast.walk(f.node):
+            if isinstance(c, ast.Call) and isinstance(c.func, ast.Attribute) \
+                    and c.func.attr == 'get' and len(c.args) == 2 and \
+                    const_str(c.args[0]) == 'radius' and \
+                    unparse(c.args[1]) == 'np.inf':
+                n_def += 1
+    res.ok(f'{n_def} factory branches default the base radius to np.inf')
+
+    def choose(test):
+        src = unparse(test)
+        if isinstance(test, ast.UnaryOp) and isinstance(test.op, ast.Not):
+            d = choose(test.operand)
+            return None if d is None else not d
+        if 'self.radius' in src and 'isinf' in src:
+            return True
+        if 'self.radius' in src and 'isfinite' in src:
+            return False
+        if isinstance(test, ast.Compare) and len(test.ops) == 1 and \
+                {unparse(test.left), unparse(test.comparators[0])} == \
+                {'self.radius', 'np.inf'}:
+            return isinstance(test.ops[0], ast.Eq)
+        return None
+
+    def all_fin(v):
+        if isinstance(v, tuple):
+            return all(all_fin(x) for x in v)
+        return v == FIN
+
+    targets = [('NewtonRaphsonGeometry._intersection_sphere', {})]
+    for cls in ('EvenAsphere', 'PolynomialGeometry',
+                'ChebyshevPolynomialGeometry'):
+        for m in ('sag', '_surface_normal'):
+            q = f'{cls}.{m}'
+            if P.has(q):
+                targets.append((q, {'x': FIN, 'y': FIN}))
+    for q, env in targets:
+        f = P.func(q)
+        res.saw(f)
+        ev = InfEv(attr={'self.radius': INF}, env=dict(env), choose=choose)
+        try:
+            ev.run(f.node.body)
+        except Inconclusive as e:
+            raise AnalysisError(f'FLAT-BASE {q}: {e}')
+        if ev.returned is None:
+            raise AnalysisError(f'FLAT-BASE {q}: no return')
+        if all_fin(ev.returned):
+            res.ok(f'{q}: finite for radius = inf')
+        else:
+            res.fail(ctx.finding(
+                'FLAT-BASE', f, f.node,
+                f'{q} evaluates to {ev.returned} for radius = inf (inf - inf '
+                f'or inf / inf): a surface on a flat base - the default of '
+                f'even asphere, polynomial and Chebyshev surfaces - turns '
+                f'every ray into NaN',
+                construct=f'{q} with an infinite base radius'))
+    res.require(4)
+    return res
+
+
+RULES = [flat_base, newton_unconverged, c01_media_chain, no_stale, records, scatter_unit, snell_law, reflect_law, align_normal, on_surface, normal_gradient,
          frames, trace_order, same_medium, nonfinite]
